@@ -140,7 +140,9 @@ def _wrap_fn(
         annotation = param.annotation
         if param.kind == param.POSITIONAL_ONLY:
             positional_args_names.add(key)
-            if annotation == param.empty or key in ignore_args:
+            if (
+                annotation == param.empty and key not in overrides
+            ) or key in ignore_args:
                 positional_validators.append(None)
             else:
                 positional_validators.append(
@@ -150,7 +152,9 @@ def _wrap_fn(
             schema[key] = None
         elif param.kind == param.POSITIONAL_OR_KEYWORD:
             positional_args_names.add(key)
-            if annotation == param.empty or key in ignore_args:
+            if (
+                annotation == param.empty and key not in overrides
+            ) or key in ignore_args:
                 positional_validators.append(None)
                 schema[key] = None
             else:
@@ -158,18 +162,26 @@ def _wrap_fn(
                 positional_validators.append((key, validator))
                 schema[key] = validator
         elif param.kind == param.VAR_POSITIONAL:
-            if annotation != param.empty and key not in ignore_args:
+            if (
+                annotation != param.empty or key in overrides
+            ) and key not in ignore_args:
                 var_args_key_and_validator = key, _get_validator_partial(key, annotation)
         elif param.kind == param.KEYWORD_ONLY:
-            if annotation != param.empty and key not in ignore_args:
+            if (
+                annotation != param.empty or key in overrides
+            ) and key not in ignore_args:
                 schema[key] = _get_validator_partial(key, annotation)
             else:
                 schema[key] = None
         elif param.kind == param.VAR_KEYWORD:
-            if annotation != param.empty and key not in ignore_args:
+            if (
+                annotation != param.empty or key in overrides
+            ) and key not in ignore_args:
                 kwargs_validator = _get_validator_partial(key, annotation)
 
-    if not ignore_return and sig.return_annotation != sig.empty:
+    if not ignore_return and (
+        sig.return_annotation != sig.empty or RETURN_OVERRIDE_KEY in overrides
+    ):
         return_validator: Optional[Validator[Any]] = _get_validator_partial(
             RETURN_OVERRIDE_KEY, sig.return_annotation
         )
